@@ -9,6 +9,8 @@ import TaffyVerif.Model.Leaf
 import TaffyVerif.Model.Root
 import TaffyVerif.Model.Block
 import TaffyVerif.Model.Flex
+import TaffyVerif.Drv.GRID
+import TaffyVerif.Model.GridEval
 
 namespace DrvEVAL
 open Proto Drv Eval
@@ -24,7 +26,35 @@ def unmodelled : Style F → List (Style F) → LayoutInput F → ProgM F (Layou
   fun _ _ _ => pure LayoutOutput.hidden
 
 def algs : Algs F :=
-  { leaf := leafAlg, block := BlockModel.computeBlockLayout, flex := FlexModel.computeFlexboxLayout, grid := unmodelled }
+  { leaf := leafAlg, block := BlockModel.computeBlockLayout, flex := FlexModel.computeFlexboxLayout, grid := GridModel.gridAlg }
+
+/-- one node's style in the `evalg` format: the 46 shared tokens followed by the grid fields -/
+def pGStyle : P (Style F) := fun ts => do
+  let (g, ts) ← DrvGRID.pGridStyle ts
+  let (row, ts) ← DrvGRID.pLinePl ts
+  let (col, ts) ← DrvGRID.pLinePl ts
+  pure ({ g.base with grid :=
+    { templateRows := g.gridTemplateRows, templateColumns := g.gridTemplateColumns, autoRows := g.gridAutoRows,
+      autoColumns := g.gridAutoColumns, autoFlow := g.gridAutoFlow, row, column := col } }, ts)
+
+mutual
+def pGTree (fuel : Nat) : P (STree F) := fun ts =>
+  match fuel with
+  | 0 => none
+  | fuel + 1 => do
+    let (style, ts) ← pGStyle ts
+    let (ctx, ts) ← pCtx ts
+    let (n, ts) ← pNat ts
+    let (kids, ts) ← pGTrees fuel n ts
+    pure (.node style ctx kids, ts)
+def pGTrees (fuel : Nat) (n : Nat) : P (List (STree F)) := fun ts =>
+  match n with
+  | 0 => some ([], ts)
+  | n + 1 => do
+    let (t, ts) ← pGTree fuel ts
+    let (rest, ts) ← pGTrees fuel n ts
+    pure (t :: rest, ts)
+end
 
 mutual
 def preorder : NS F (CacheModel.Cache F) → List (Layout F)
@@ -46,6 +76,11 @@ def step (_ : Unit) (ws : List String) : Unit × String :=
   ((), match ws with
   | "eval" :: aw :: ah :: rest =>
     match parseAv aw, parseAv ah, pTree 64 rest with
+    | some aw, some ah, some (t, _) =>
+      String.intercalate " | " ((layoutRoot t ⟨aw, ah⟩).map showLayout)
+    | _, _, _ => "bad-op"
+  | "evalg" :: aw :: ah :: rest =>
+    match parseAv aw, parseAv ah, pGTree 64 rest with
     | some aw, some ah, some (t, _) =>
       String.intercalate " | " ((layoutRoot t ⟨aw, ah⟩).map showLayout)
     | _, _, _ => "bad-op"
